@@ -11,7 +11,15 @@ What the extraction changes (everything else is byte-identical and checked):
   * trait impl headers (`Drop for Map`, `Iterator for IntoIter`, `ExactSizeIterator
     for IntoIter`) become inherent impl headers;
   * requires/ensures are inserted between signature and body, loop invariants before
-    the body of the n-th loop; the slot accessors get #[verifier::external_body].
+    the body of the n-th loop; a closure listed under `closures` gets its
+    `-> (r: T) requires .. ensures ..` clause inserted after its parameter list (and, when
+    its body is a bare expression, a pair of braces around that expression - Rust's
+    grammar requires a block after a closure return type); trusted functions get
+    #[verifier::external_body];
+  * struct fields are declared `pub` (open specification functions may then mention
+    them); the file is laid out as root (type definitions) + `mod spec` (prelude) +
+    `mod code` (the extracted functions), so that the module-level `broadcast use` of the
+    proved plumbing lemmas is not cyclic.
 """
 import json
 import os
@@ -70,6 +78,69 @@ def find_loops(sc, lo, hi):
     return out
 
 
+def find_closures(sc, lo, hi):
+    """closures inside [lo,hi) in source order -> list of (params_end, body_start, body_end, braced)
+    params_end: index just after the closing `|`; body_[start,end): the body expression."""
+    out = []
+    code = sc.code
+    i = lo
+    while i < hi:
+        if code[i] == "|":
+            j = i - 1
+            while j >= lo and code[j].isspace():
+                j -= 1
+            prev = code[j] if j >= lo else ""
+            word = re.search(r"(\w+)\s*$", code[lo:i])
+            is_start = prev in "(,=" or (word is not None and word.group(1) in ("move", "return"))
+            if not is_start:
+                i += 1
+                continue
+            if code[i + 1] == "|":
+                pe = i + 2
+            else:
+                k = i + 1
+                depth = 0
+                while k < hi:
+                    c = code[k]
+                    if c in "([<":
+                        depth += 1
+                    elif c in ")]>" and code[k - 1] != "-":
+                        depth -= 1
+                    elif c == "|" and depth <= 0:
+                        break
+                    k += 1
+                pe = k + 1
+            b = pe
+            while b < hi and code[b].isspace():
+                b += 1
+            if code[b] == "{":
+                be = sc.match_brace(b) + 1
+                out.append((pe, b, be, True))
+                i = b + 1  # closures nested in the body are found too
+                continue
+            # bare expression: ends at the first `,` or closing bracket at depth 0
+            depth, k = 0, b
+            while k < hi:
+                c = code[k]
+                if c in "([{":
+                    depth += 1
+                elif c in ")]}":
+                    if depth == 0:
+                        break
+                    depth -= 1
+                elif c == "," and depth == 0:
+                    break
+                k += 1
+            e = k
+            while e > b and code[e - 1].isspace():
+                e -= 1
+            out.append((pe, b, e, False))
+            i = pe
+            continue
+        i += 1
+    return out
+
+
 def extract_fn(repo, spec):
     path = os.path.join(repo, spec["file"])
     if not os.path.exists(path):
@@ -122,28 +193,68 @@ def extract_fn(repo, spec):
                 raise vf.Undecided("Self::Item is no longer (K, V) in %s" % spec["name"])
             rt = "Option<(K, V)>"
         sig2 = sig2[:pend + 1] + " -> (r: %s)" % rt + (" " + m.group(2) if m.group(2) else "")
-    # ---- loops
+    # ---- loops and closures: annotations are *inserted*; nothing is removed
     loops = find_loops(sc, bo, bc)
     ann = spec.get("loops", [])
     if len(ann) != len(loops):
         raise vf.Undecided("%s: %d loops in the source, %d loop specifications" % (spec["name"], len(loops), len(ann)))
+    inserts = []  # (position in text, inserted string)
+    for (s_, lbo), a in zip(loops, ann):
+        inserts.append((lbo, "\n" + a.rstrip("\n").lstrip("\n") + "\n            "))
+    cann = spec.get("closures")
+    nclos = 0
+    if cann is not None:
+        clos = find_closures(sc, bo, bc)
+        nclos = len(clos)
+        if len(cann) != len(clos):
+            raise vf.Undecided("%s: %d closures in the source, %d closure specifications" % (spec["name"], len(clos), len(cann)))
+        for (pe, cb, ce, braced), a in zip(clos, cann):
+            a = " ".join(a.split())
+            if not a:
+                continue
+            if braced:
+                inserts.append((pe, " " + a + " "))
+            else:
+                inserts.append((cb, a + " { "))
+                inserts.append((ce, " }"))
+    hints = spec.get("hints", [])
+    for h in hints:
+        # ghost hint: `after` is a regex on the masked source of this function, the proof text goes right after the match
+        hm = [m for m in re.finditer(h["after"], sc.code[bo:bc])]
+        if len(hm) != 1:
+            raise vf.Undecided("%s: hint anchor %r matched %d times" % (spec["name"], h["after"], len(hm)))
+        inserts.append((bo + hm[0].end(), "\n" + h["text"].strip("\n") + "\n"))
+    inserts.sort(key=lambda x: x[0])
     pieces, cur = [], bo
-    for (s, lbo), a in zip(loops, ann):
-        pieces.append(text[cur:lbo].rstrip() + "\n" + a.rstrip("\n").lstrip("\n") + "\n            ")
-        cur = lbo
+    for pos, ins in inserts:
+        pieces.append(text[cur:pos])
+        pieces.append(ins)
+        cur = pos
     pieces.append(text[cur:bc + 1])
     body2 = "".join(pieces)
-    # check: removing the inserted annotations gives back the original body
-    chk = body2
-    for a in ann:
-        chk = chk.replace("\n" + a.rstrip("\n").lstrip("\n") + "\n            ", " ", 1)
-    if re.sub(r"\s+", " ", chk) != re.sub(r"\s+", " ", body):
+    # check: deleting exactly the inserted strings gives back the original body
+    chk, off = body2, 0
+    for pos, ins in inserts:
+        at = pos - bo + off
+        if chk[at:at + len(ins)] != ins:
+            raise vf.Undecided("%s: body identity check failed" % spec["name"])
+        off += len(ins)
+    chk2, off = [], 0
+    cur = 0
+    for pos, ins in inserts:
+        at = pos - bo + off
+        chk2.append(body2[cur:at])
+        cur = at + len(ins)
+        off += len(ins)
+    chk2.append(body2[cur:])
+    if "".join(chk2) != body:
         raise vf.Undecided("%s: body identity check failed" % spec["name"])
     line_in_repo = text.count("\n", 0, start) + 1
     return {"name": spec["name"], "header": inherent_header(header), "orig_header": re.sub(r"\s+", " ", header),
             "sig": sig2, "spec": spec.get("spec", ""), "body": body2, "orig_body": body,
             "trusted": spec.get("trusted", False), "props": spec.get("props", []),
-            "file": spec["file"], "line": line_in_repo, "sha": vf.sha(body), "loops": len(loops)}
+            "file": spec["file"], "line": line_in_repo, "sha": vf.sha(body), "loops": len(loops), "closures": nclos,
+            "hints": len(hints)}
 
 
 def extract_struct(repo, spec):
@@ -156,20 +267,41 @@ def extract_struct(repo, spec):
     s = hits[0].start()
     bo = sc.code.find("{", s)
     bc = sc.match_brace(bo)
-    t = text[s:bc + 1].replace("pub(super)", "pub(crate)")
+    t = text[s:bc + 1]
     t = "\n".join(l for l in t.split("\n") if not l.strip().startswith("///"))
+    if re.match(r"pub struct", t):
+        # fields are declared pub (nothing else changes): open spec fns may then mention them
+        head, rest = t.split("{", 1)
+        rest = re.sub(r"(?m)^(\s*)(?:pub(?:\([a-z]+\))?\s+)?(\w+\s*:)", r"\1pub \2", rest)
+        t = head + "{" + rest
     return t
 
 
 def assemble(repo):
     specs = load_specs()
-    out = ["// generated by /verif/lib/verus_units.py from %s - do not edit" % repo,
-           "use vstd::prelude::*;", "use vstd::std_specs::cmp::PartialEqSpec;",
-           "use core::mem::MaybeUninit;", "use core::mem;  // src/entry.rs: `use core::mem;`", "verus! {", ""]
-    for s in specs.get("struct", []):
-        out.append(extract_struct(repo, s))
+    imports = ["use vstd::prelude::*;", "use vstd::std_specs::cmp::PartialEqSpec;",
+               "use vstd::std_specs::maybe_uninit::*;", "use vstd::std_specs::iter::IteratorSpec;",
+               "use vstd::raw_ptr::MemContents;", "use core::mem::MaybeUninit;", "use core::borrow::Borrow;",
+               "use core::mem;  // src/entry.rs: `use core::mem;`"]
+    structs = [extract_struct(repo, s) for s in specs.get("struct", [])]
+    names = [re.search(r"pub (?:struct|enum) (\w+)", t).group(1) for t in structs]
+    out = ["// generated by /verif/lib/verus_units.py from %s - do not edit" % repo]
+    out += imports
+    out += ["verus! {", ""]
+    for t in structs:
+        out.append(t)
         out.append("")
+    local = "use super::{%s};" % ", ".join(names)
+    out.append("pub mod spec {")
+    out += imports + [local]
     out.append(open(os.path.join(vf.VERIF, "verus", "prelude.rs")).read())
+    out.append("} // mod spec")
+    out.append("")
+    out.append("pub mod code {")
+    out += imports + [local, "use super::spec::*;"]
+    lemmas = re.findall(r"pub broadcast proof fn (\w+)", open(os.path.join(vf.VERIF, "verus", "prelude.rs")).read())
+    out.append("broadcast use {%s};" % ", ".join("super::spec::" + l for l in lemmas))
+    out.append("")
     fns, lost = [], []
     linemap = []  # (first_line, last_line, fn)
     for s in specs.get("fn", []):
@@ -194,6 +326,7 @@ def assemble(repo):
         out.append(txt)
         last = first + txt.count("\n")
         linemap.append((first, last, f))
+    out.append("} // mod code")
     out.append("} // verus!")
     out.append("fn main() {}")
     return "\n".join(out), fns, lost, linemap
